@@ -29,6 +29,10 @@ func VerifC10_SourceDelims4() { zzLexParse(zzverif.StringFrom("src", 4, zzDelims
 func VerifC10_SourceDelims5() { zzLexParse(zzverif.StringFrom("src", 5, zzDelims)); zzverif.Reach("src") }
 
 // a route header followed by symbolic body bytes
+func VerifC10_RouteBody2() {
+	zzLexParse("@ GET /x {\n" + zzverif.StringFrom("body", 2, zzDelims) + "\n}\n")
+	zzverif.Reach("src")
+}
 func VerifC10_RouteBody3() {
 	zzLexParse("@ GET /x {\n" + zzverif.StringFrom("body", 3, zzDelims) + "\n}\n")
 	zzverif.Reach("src")
